@@ -46,16 +46,27 @@ Proof.
       right. split; [lia|]. split; [reflexivity|]. exists []. split; [reflexivity | left; reflexivity].
 Qed.
 
-(* segments of one level with their canonical segments and blocks; E = per-segment evaluation facts *)
-Inductive Lv (c : cfg) (eps : Z) (E : cseg -> segment -> Prop) : list cseg -> list (list (Z * Z)) -> list segment -> Prop :=
+(* segments of one level with their canonical segments and blocks;
+   E cs s rest = evaluation facts about segment s, given the real segments that follow it *)
+Inductive Lv (c : cfg) (eps : Z) (E : cseg -> segment -> list segment -> Prop) :
+  list cseg -> list (list (Z * Z)) -> list segment -> Prop :=
 | Lv_nil : Lv c eps E [] [] []
 | Lv_cons cs b s css g new :
-    line_ok eps cs b -> seg_of c cs s -> E cs s -> Lv c eps E css g new -> Lv c eps E (cs :: css) (b :: g) (s :: new).
+    line_ok eps cs b -> seg_of c cs s -> E cs s new -> Lv c eps E css g new ->
+    Lv c eps E (cs :: css) (b :: g) (s :: new).
+
+Fixpoint EvL (E : cseg -> segment -> list segment -> Prop) (css : list cseg) (new : list segment) : Prop :=
+  match css, new with
+  | cs :: css', s :: new' => E cs s new' /\ EvL E css' new'
+  | [], [] => True
+  | _, _ => False
+  end.
 
 Lemma Lv_of_Forall2 c eps E css : forall g new,
-  Forall2 (line_ok eps) css g -> Forall2 (seg_of c) css new -> Forall2 E css new -> Lv c eps E css g new.
+  Forall2 (line_ok eps) css g -> Forall2 (seg_of c) css new -> EvL E css new -> Lv c eps E css g new.
 Proof.
-  induction css as [|cs css IH]; intros g new H1 H2 H3; inversion H1; inversion H2; subst; inversion H3; subst; constructor; auto.
+  induction css as [|cs css IH]; intros g new H1 H2 H3; inversion H1; inversion H2; subst; [constructor|].
+  cbn [EvL] in H3. destruct H3 as [HE1 HE2]. constructor; auto.
 Qed.
 
 Lemma Lv_Forall2 c eps E css g new : Lv c eps E css g new ->
@@ -68,7 +79,7 @@ Proof. induction 1 as [|cs b s css g new H1 H2 H3 _ [IH1 IH2]]; [split; reflexiv
 Lemma Lv_split c eps E css g new j : Lv c eps E css g new -> 0 <= j < zlen new ->
   exists c1 cs c2 g1 b g2 n1 s n2,
     css = c1 ++ cs :: c2 /\ g = g1 ++ b :: g2 /\ new = n1 ++ s :: n2 /\ zlen n1 = j /\
-    line_ok eps cs b /\ seg_of c cs s /\ E cs s /\ Lv c eps E c2 g2 n2.
+    line_ok eps cs b /\ seg_of c cs s /\ E cs s n2 /\ Lv c eps E c2 g2 n2.
 Proof.
   intros H. revert j. induction H as [|cs b s css g new H1 H2 HE H3 IH]; intros j Hj.
   - change (zlen (@nil segment)) with 0 in Hj. lia.
@@ -147,20 +158,25 @@ Proof.
   destruct (build_level_shape _ _ _ _ _ _ _ _ H) as (css & fed & cnt & new & T & E1 & E2 & E3 & HT).
   destruct (level_blocks _ _ _ _ _ _ _ _ E1 Hpar Hne Hs Hw Hn) as (g & G1 & G2 & G3 & Heps).
   pose proof (map_res_Forall2 _ _ _ E2) as F2.
-  pose proof (Lv_of_Forall2 c eps (fun _ _ => True) css g new G2 F2) as HL.
-  assert (FT : Forall2 (fun (_ : cseg) (_ : segment) => True) css new) by (clear -F2; induction F2; constructor; auto).
+  pose proof (Lv_of_Forall2 c eps (fun _ _ _ => True) css g new G2 F2) as HL.
+  assert (FT : EvL (fun (_ : cseg) (_ : segment) (_ : list segment) => True) css new) by (clear -F2; induction F2; cbn [EvL]; auto).
   destruct (Lv_len _ _ _ _ _ _ (HL FT)) as [L1 L2].
   exists css, fed, cnt, g, new, T. do 7 (split; [assumption|]).
   unfold tail_ok. replace (zlen new) with cnt by lia. exact HT.
 Qed.
 
 (* ---- the floating-point interface for one level ---- *)
+(* one evaluation: segment s (exact slope from cs), followed by the real segments `rest`, at key k;
+   only the segment that is responsible for k (sg_key s <= k < key of the next real segment) matters *)
+Definition EvalOK (c : cfg) (k : Z) (cs : cseg) (s : segment) (rest : list segment) : Prop :=
+  sg_key s <= k -> match rest with s' :: _ => k < sg_key s' | [] => True end -> k < sentinel c ->
+  eval_ok c (fst (slope_of cs)) (snd (slope_of cs)) s k.
+
 Definition level_float_ok (c : cfg) (eps : Z) (keys : list Z) (ldk : Z) (k : Z) : Prop :=
   forall css fed cnt new,
     make_segmentation_par (c_kt c) par_threshold (c_par c) (zlen keys) eps keys = Ok (css, fed, cnt) ->
     map_res (segment_of_cseg c) css = Ok new ->
-    Forall2 (fun cs s => sg_key s <= k -> k < sentinel c ->
-                         eval_ok c (fst (slope_of cs)) (snd (slope_of cs)) s k) css new /\
+    EvL (EvalOK c k) css new /\
     (extra_test c (zlen keys) (last new dseg) = true ->
      sg_key (extra_seg c ldk (zlen keys)) <= k -> k < sentinel c ->
      eval_ok c 1 0 (extra_seg c ldk (zlen keys)) k).
@@ -174,9 +190,6 @@ Proof.
   rewrite app_nth2 by lia. replace (S (length l1) - length l1)%nat with 1%nat by lia.
   destruct r; reflexivity.
 Qed.
-
-Definition EvalOK (c : cfg) (k : Z) (cs : cseg) (s : segment) : Prop :=
-  sg_key s <= k -> k < sentinel c -> eval_ok c (fst (slope_of cs)) (snd (slope_of cs)) s k.
 
 Definition tail_shape (c : cfg) (ldk ln : Z) (back : segment) (T : list segment) : Prop :=
   T = [] \/ exists X, T = X ++ [sent_seg c ln] /\
@@ -218,7 +231,8 @@ Proof.
     assert (EL : new ++ T = n1 ++ s :: (n2 ++ T)) by (rewrite E3, <- app_assoc; reflexivity).
     rewrite EL in *. rewrite <- E4 in *. rewrite nth_mid in *. rewrite nth_mid_next in *.
     cbn zeta. rewrite E2 in Hcat.
-    apply (level_query_split c (c_kt c) eps keys g1 g2 b cs c2 s n2 k); try assumption; [lia | apply R3; assumption |].
+    apply (level_query_split c (c_kt c) eps keys g1 g2 b cs c2 s n2 k); try assumption;
+      [lia | apply R3; [exact Hk1 | destruct n2; [exact I | exact Hk2] | exact Hksent] |].
     destruct n2 as [|s' n2']; [|cbn [app hd] in *; split; [exact Hk2 | reflexivity]].
     cbn [app] in *. rewrite E3, zlen_app, zlen_cons in HJ1. change (zlen (@nil segment)) with 0 in HJ1.
     destruct HT as [->|(X & -> & [->|[-> _]])].
